@@ -428,18 +428,26 @@ type genOpts struct {
 	allowBad bool
 }
 
-var shapes = []string{"chain", "diamond", "cycle", "self", "starconflict", "random", "random", "mixed", "mixed", "starcycle", "starcycle", "starchain", "starchain"}
+var shapes = []string{"chain", "diamond", "cycle", "self", "starconflict", "random", "random", "mixed", "mixed", "starcycle", "starcycle", "starchain", "starchain", "stardiamond", "stardiamond"}
 
 func genGraph(r *Rng, o genOpts) *ggraph {
 	for {
 		g := genGraph1(r, o)
 		g.nestedAmb = false
 		anyAmb := false
+		ambBelowStar := false // an ambiguous name in a module that another module star-exports
 		for _, md := range g.mods {
 			if md.kind == modESM {
 				for _, n := range g.exportedNames(md.id, map[int]bool{}) {
 					if g.resolve(md.id, n, map[string]bool{}).state == 2 {
 						anyAmb = true
+						for _, p := range g.mods {
+							for _, t := range p.stars {
+								if t == md.id {
+									ambBelowStar = true
+								}
+							}
+						}
 					}
 				}
 			}
@@ -451,7 +459,9 @@ func genGraph(r *Rng, o genOpts) *ggraph {
 		// a name that conflicts with a CommonJS star export is ambiguous natively but statically
 		// bound by the linker (the run-time copy never overwrites): no ambiguity next to CommonJS stars;
 		// and the run-time copies of "export *" must happen in evaluation order (recorded finding E)
-		if !g.nestedAmb && !(anyAmb && (g.hasStarCycle() || g.hasStarChain() || g.hasCJSStar())) &&
+		// (a conflict at the top of a chain of export stars, in a module nobody star-exports, is
+		// reported by V8 as ECMA-262 says: diamonds with a shadow on one path are generated)
+		if !g.nestedAmb && !(anyAmb && (g.hasStarCycle() || (g.hasStarChain() && ambBelowStar) || g.hasCJSStar())) &&
 			(g.allowKnown || g.cjsStarCopiesInOrder()) {
 			return g
 		}
@@ -662,6 +672,22 @@ func genGraph1(r *Rng, o genOpts) *ggraph {
 	if chain > 0 {
 		n = 1 + chain + r.Range(1, 2)
 	}
+	// stardiamond: [importer,] lib, two branches, optional module between a branch and the join,
+	// the join, 0-1 further star levels, the leaf
+	sdImporter, sdMidA, sdMidB, sdLevels := false, false, false, 1
+	if g.shape == "stardiamond" {
+		sdImporter, sdMidA, sdMidB, sdLevels = r.Chance(65), r.Chance(35), r.Chance(25), r.Range(1, 2)
+		n = 5 + sdLevels - 1
+		if sdImporter {
+			n++
+		}
+		if sdMidA {
+			n++
+		}
+		if sdMidB {
+			n++
+		}
+	}
 	if g.shape == "random" || g.shape == "mixed" {
 		n = r.Range(3, o.maxMods)
 	}
@@ -842,6 +868,74 @@ func genGraph1(r *Rng, o genOpts) *ggraph {
 			if i+1 != first {
 				g.mods[0].imports = append(g.mods[0].imports, gimport{target: i + 1, form: "side"})
 			}
+		}
+	case "stardiamond":
+		// a diamond of export stars whose shared descendant (the join) lies at least two star levels
+		// below lib and whose leaf lies below the join; a contested name of the leaf is shadowed by a
+		// module on exactly one of the two paths, so it is ambiguous in lib (and only there)
+		next := 0
+		take := func() *gmod { m := g.mods[next]; next++; return m }
+		if sdImporter {
+			take()
+		}
+		lib, a, b := take(), take(), take()
+		lastA, lastB := a, b
+		if sdMidA {
+			m := take()
+			a.stars = append(a.stars, m.id)
+			lastA = m
+		}
+		if sdMidB {
+			m := take()
+			b.stars = append(b.stars, m.id)
+			lastB = m
+		}
+		join := take()
+		lastA.stars = append(lastA.stars, join.id)
+		lastB.stars = append(lastB.stars, join.id)
+		cur := join
+		for i := 1; i < sdLevels; i++ {
+			m := take()
+			cur.stars = append(cur.stars, m.id)
+			cur = m
+		}
+		leaf := take()
+		cur.stars = append(cur.stars, leaf.id)
+		lib.stars = append(lib.stars, a.id, b.id) // the statement order is shuffled
+		pathA := []*gmod{a}
+		if lastA != a {
+			pathA = append(pathA, lastA)
+		}
+		nm := namePool[r.Intn(len(namePool))]
+		shadow := pathA[r.Intn(len(pathA))]
+		has := func(m *gmod) bool {
+			for _, l := range m.locals {
+				if l.name == nm {
+					return true
+				}
+			}
+			return false
+		}
+		for _, m := range g.mods {
+			m.aliasTwo, m.throws = false, false
+			if m == shadow || m == leaf {
+				if !has(m) {
+					m.locals = append(m.locals, localExport{nm, "var"})
+				}
+				continue
+			}
+			var keep []localExport
+			for _, l := range m.locals {
+				if l.name != nm {
+					keep = append(keep, l)
+				}
+			}
+			m.locals = keep
+		}
+		if sdImporter {
+			imp := g.mods[0]
+			imp.imports = append(imp.imports, gimport{target: lib.id, form: "ns", local: "i0_lib"},
+				gimport{target: lib.id, form: "side"}, gimport{target: a.id, form: "side"}, gimport{target: b.id, form: "side"})
 		}
 	case "starconflict":
 		for i := 1; i < n; i++ {
